@@ -493,12 +493,21 @@ func (g *Gen) comment(pos string) *MComment {
 	case "lead2":
 		c.Lead = "  "
 	}
-	switch g.knob(pos, "tags", "free-tags", "bmp", "nonbmp") {
+	switch g.knob(pos, "tags", "free-tags", "bmp", "nonbmp", "free-names-tag") {
 	case "tags":
 		c.Tags = g.tags()
 	case "free-tags":
 		c.Free = g.word() + " " + g.word()
 		c.Tags = g.tags()
+	case "free-names-tag":
+		// the free text in front of the tags uses a tag's name as an ordinary word (or word prefix)
+		c.Tags = g.tags()
+		if len(c.Tags) > 0 {
+			n := c.Tags[g.r.Intn(len(c.Tags))].Name
+			c.Free = Pick(g.r, []string{"paid by " + n, n + "s list", "see " + n + " below", n})
+		} else {
+			c.Free = g.word()
+		}
 	case "bmp":
 		c.Free = Pick(g.r, []string{"déjà vu", "заметка", "メモ"})
 	case "nonbmp":
